@@ -711,4 +711,9 @@ theorem axis_angle_to_quaternion_tiny_axis :
   · simp
   · simp
 
+theorem vec_norm_inverse (q : Quat ℝ) : (inverse_quaternion q).vec.norm = q.vec.norm := by
+  simp [Vec3.norm_real, Vec3.normSq, Quat.vec, inverse_quaternion]
+theorem vec_norm_neg (q : Quat ℝ) : (⟨-q.w, -q.x, -q.y, -q.z⟩ : Quat ℝ).vec.norm = q.vec.norm := by
+  simp [Vec3.norm_real, Vec3.normSq, Quat.vec]
+
 end E3nnVerif.Rotation
